@@ -64,6 +64,8 @@ def C01(c):
     c.corr("recursive-4-5-bins", hard, combos_of(["list", "dict_str"], [PT, "Sums"]), judge=judge)
     # rnp with 6 or more bins (known finding KF1 lives here)
     big = [{"alg": "rnp", "vals": gen.rand_vals(rng, rng.randint(6, 9), "small"), "p": {"k": rng.choice([6, 7])}} for _ in range(c.n(6, 40))]
+    # ... and inputs on which KK's first partition is perfect: rnp returns it, also for 6 or more bins (this path works and is modelled)
+    big += [{"alg": "rnp", "vals": [x] * (k_ * m_), "p": {"k": k_}} for x in (0, 3) for k_ in (6, 7) for m_ in (1, 2)]
     c.corr("rnp-6plus", big, combos_of(["list"], [PT]), judge=judge)
 
 
@@ -307,17 +309,19 @@ def C06(c):
     c.corr("all-output-types-dict", [e for e in cs if e["alg"] != "bin_completion"][: c.n(300, 3000)], combos_of(["dict_str"], OUTTYPES), judge=judge)
     # the statement itself, evaluated on the implementation: every sums-only output equals the function of the full output
     from engine import impl_map
-    tasks = [(case, "list", ot, list(case["vals"])) for case in cs for ot in [PT] + SUMS_ONLY]
-    res = iter(impl_map(tasks))
-    for case in cs:
-        full = next(res)
-        rest = [next(res) for _ in SUMS_ONLY]
-        if J._is_err(full) or J._is_none(full):
-            continue
-        for ot, got in zip(SUMS_ONLY, rest):
-            want = sums_view(ot, full["sums"])
-            c.check_direct(case["alg"], dict(case["p"], vals=case["vals"], alg=case["alg"], outtype=ot), "output-mismatch",
-                           got == want, got, f"{ot} computed from the full partition output: {want}")
+    for fmt_ in ("list", "dict_str"):
+        sel = cs if fmt_ == "list" else [e for e in cs if e["alg"] != "bin_completion"][: c.n(300, 3000)]
+        tasks = [(case, fmt_, ot, names_for(fmt_, case["vals"], random.Random(sha([case["vals"], fmt_])))) for case in sel for ot in [PT] + SUMS_ONLY]
+        res = iter(impl_map(tasks))
+        for case in sel:
+            full = next(res)
+            rest = [next(res) for _ in SUMS_ONLY]
+            if J._is_err(full) or J._is_none(full) or not isinstance(full, dict) or "sums" not in full:
+                continue
+            for ot, got in zip(SUMS_ONLY, rest):
+                want = sums_view(ot, full["sums"])
+                c.check_direct(case["alg"], dict(case["p"], vals=case["vals"], alg=case["alg"], outtype=ot, fmt=fmt_), "output-mismatch",
+                               got == want, got, f"{ot} computed from the full partition output: {want}")
 
 
 # ------------------------------------------------------------------------------------------------ C07
@@ -699,7 +703,7 @@ def C13(c):
         cases.append((sorted(gen.rand_vals(rng, n, rng.choice(["tiny", "small", "mid", "zeros", "equal"]))), rng.randint(0, 60)))
     triples = []
     for sums, rem in cases:
-        for o in C.OBJS3 + (["ksmall:2"] if rng.random() < 0.05 else []):
+        for o in C.OBJS3 + ([rng.choice(["ksmall:1", "ksmall:2", "ksmall:3", "klarge:1", "klarge:2", "klarge:3"])] if rng.random() < 0.3 else []):
             sh = list(sums); rng.shuffle(sh)
             for flag, vec in ((1, sums), (0, sh)):
                 def thunk(o=o, vec=vec, rem=rem, flag=flag):
@@ -710,7 +714,17 @@ def C13(c):
     for sums, rem in cases:
         k = len(sums)
         small = k <= 4 and rem <= 10
-        for o in C.OBJS3:
+        for o in C.OBJS3 + ["ksmall:1", "ksmall:2", "klarge:1", "klarge:2", "klarge:3", "weighted"]:
+            if o == "weighted":
+                ws = [rng.choice([1, 2, 3]) for _ in sums]
+                impl_o = obj.MaximizeSmallestWeightedSum(ws)
+                lbw = num(impl_o.lower_bound(list(sums), rem))
+                if small:
+                    from fractions import Fraction
+                    bestw = min(-min(Fraction(s_ + a_, w_) for s_, a_, w_ in zip(sums, adds, ws)) for adds in _compositions(rem, k))
+                    c.check_direct("objective.lower_bound", {"vals": list(sums), "obj": "weighted", "weights": ws, "rem": rem}, "inadmissible-bound",
+                                   lbw == "-inf" or lbw <= bestw, lbw, f"a value not above {bestw}")
+                continue
             impl_o = objective_impl(o)
             lb_sorted = num(impl_o.lower_bound(list(sums), rem, are_sums_in_ascending_order=True))
             sh = list(sums); rng.shuffle(sh)
@@ -719,7 +733,7 @@ def C13(c):
                            [lb_sorted, lb_unsorted], "the bound must not depend on whether the caller says the sums are sorted")
             if small:
                 best = min(obj_value(o, [s + a for s, a in zip(sums, adds)]) for adds in _compositions(rem, k))
-                c.check_direct("objective.lower_bound", {"vals": list(sums), "obj": o, "rem": rem}, "inadmissible-bound", lb_sorted <= best,
+                c.check_direct("objective.lower_bound", {"vals": list(sums), "obj": o, "rem": rem}, "inadmissible-bound", lb_sorted == "-inf" or lb_sorted <= best,
                                lb_sorted, f"a value not above {best}, the best objective reachable by distributing {rem}")
     # ---- (b) inclusion/exclusion enumerator
     from prtpy.inclusion_exclusion_tree import InExclusionBinTree
@@ -898,7 +912,8 @@ def C11(c):
     cut_cases, groups = [], []
     for e in base:
         L = run_length("cg", e)
-        cuts = list(range(0, L + 2)) if L <= c.n(60, 400) else sorted(set(rng.sample(range(0, L + 2), c.n(40, 200)) + [0, 1, 2, L, L + 1]))
+        # every cut up to the first leaf (reached after n+1 <= 60 iterations) is always run, so "the first solution" is never a sampling artefact
+        cuts = list(range(0, L + 2)) if L <= c.n(60, 400) else sorted(set(list(range(0, 61)) + rng.sample(range(0, L + 2), c.n(40, 200)) + [L, L + 1]))
         grp = []
         for cut in cuts:
             ce = {"alg": "cg", "vals": e["vals"], "p": dict(e["p"], cut=cut)}
@@ -1350,7 +1365,8 @@ class MipCapture:
         self.preprocess_off = False
         self.force_status = None
 
-    PARAMS = ("max_mip_gap_abs", "max_mip_gap", "integer_tol", "infeas_tol", "opt_tol", "max_nodes", "max_solutions", "cutoff", "emphasis")
+    PARAMS = ("max_mip_gap_abs", "max_mip_gap", "integer_tol", "infeas_tol", "opt_tol", "max_nodes", "max_solutions", "cutoff", "emphasis",
+              "preprocess", "cuts", "clique", "cut_passes", "threads", "max_seconds", "lp_method", "seed", "pump_passes", "sol_pool_size")
 
     def params_of(self, model):
         res = {}
@@ -1379,7 +1395,7 @@ class MipCapture:
                         "sense": model.sense, "nvars": len(model.vars), "integer": all(v.var_type == "I" for v in model.vars),
                         "params": cap.params_of(model)}
             if cap.preprocess_off:
-                model.preprocess = 0
+                model.preprocess = 0        # (after the parameters were recorded above)
             st = cap.orig(model, *a, **kw)
             cap.last["status"] = str(st)
             if cap.force_status is not None and st == cap.mip.OptimizationStatus.OPTIMAL:
@@ -1779,7 +1795,9 @@ def C18(c):
             for _ in range(z):
                 zv.insert(rng.randrange(len(zv) + 1), 0)
             if len(zv) <= C.max_n(a) + 3:
-                plan.append(("zeros", e, {"alg": a, "vals": zv, "p": dict(e["p"])}, 1))
+                zc = C.cap_k({"alg": a, "vals": zv, "p": dict(e["p"])})
+                if zc["p"] == e["p"]:       # (a smaller k would be another problem, not the same one with zeros added)
+                    plan.append(("zeros", e, zc, 1))
     allcases = base + [t[2] for t in plan]
     results = {}
 
@@ -1879,6 +1897,22 @@ def C15(c):
             if p2 != e["p"]:
                 sib.append({"alg": e["alg"], "vals": list(e["vals"]), "p": p2})      # (format drawn afresh)
     pool_cases += sib
+    # siblings that differ in ONE option only (state keyed on the items and the bin count alone would leak between them)
+    opt_sib = []
+    for e in pool_cases:
+        a, p = e["alg"], e["p"]
+        if a == "multifit":
+            opt_sib.append(dict(e, p=dict(p, it=rng.choice([x for x in (0, 1, 2, 3, 10, 20) if x != p.get("it", 10)]))))
+        elif a == "cg" and p.get("cut") is None and rng.random() < 0.7:
+            q = dict(p)
+            which = rng.choice(["obj", "lb", "fast", "h3", "seen"])
+            q[which] = rng.choice([o for o in C.OBJS5 if o != p["obj"]]) if which == "obj" else 1 - p[which]
+            opt_sib.append(dict(e, p=q))
+        elif a in ("dp", "ilp") and rng.random() < 0.7:
+            opt_sib.append(dict(e, p=dict(p, obj=rng.choice([o for o in C.OBJS5 if o != p["obj"]]))))
+        elif a == "cbldm" and p.get("k") == 2 and p.get("cut") is None and rng.random() < 0.7:
+            opt_sib.append(dict(e, p=dict(p, d=rng.choice([x for x in (1, 2, 3, None) if x != p.get("d")]))))
+    pool_cases += [{"alg": e["alg"], "vals": list(e["vals"]), "p": dict(e["p"])} for e in opt_sib]
     for _ in range(c.n(8, 40)):       # bin completion: one item list, two bin sizes, the branching search runs for both
         vals, b1, b2 = gen.hard_bc_pair(rng)
         for b in (b1, b2):
@@ -1890,6 +1924,7 @@ def C15(c):
                    for _ in range(c.n(10, 50))]                                                                  # interrupted anytime runs
     calls = []
     for e in pool_cases:
+        C.cap_k(e)
         fmt = e.pop("force_fmt", None) or rng.choice(FORMATS)
         ot = rng.choice(OUTTYPES)
         names = names_for(fmt, e["vals"], random.Random(sha([e["vals"], fmt])))
@@ -1918,8 +1953,13 @@ def C15(c):
         for step, j in enumerate(seq):
             e, fmt, ot, names = calls[j]
             mut = []
-            got = ALGS[e["alg"]].call_impl(e, fmt, ot, names, mutation=mut)
-            c.evaluations += 1; c.corr_cases += 1
+            from engine import timed
+            got = timed(lambda: ALGS[e["alg"]].call_impl(e, fmt, ot, names, mutation=mut))
+            c.evaluations += 1
+            if (isinstance(got, dict) and got.get("error") == "Timeout") or (isinstance(ref[j], dict) and ref[j].get("error") == "Timeout"):
+                c.call_timeouts += 1
+                continue
+            c.corr_cases += 1
             c.stats["histories"]["calls"] += 1
             c.stats["histories"]["alg:" + e["alg"]] += 1
             if J._is_err(got):
